@@ -195,6 +195,30 @@ impl Property for C06 {
         if ctx.ch.chance(1, 50) {
             return huge_threshold(ctx, &p);
         }
+        if ctx.ch.chance(1, 10) {
+            // the public get_evaluator takes any list of polynomials (highest degree first), not only the
+            // equal-length ones the dealer builds: every y is the big-integer Horner value of ITS polynomial
+            let n = 1 + ctx.ch.index(4);
+            let mut polys_fp: Vec<Vec<star_sharks::Fp>> = Vec::new();
+            let mut polys_big: Vec<Vec<BigUint>> = Vec::new();
+            for _ in 0..n {
+                let len = 1 + ctx.ch.index(5);
+                let co: Vec<u64> = (0..len).map(|_| 1 + ctx.ch.draw(1000)).collect();
+                polys_fp.push(co.iter().map(|c| star_sharks::Fp::from(*c)).collect());
+                polys_big.push(co.iter().rev().map(|c| BigUint::from(*c)).collect()); // constant term first
+            }
+            let mut ev = star_sharks::get_evaluator(polys_fp);
+            for _ in 0..3 {
+                let sh = ev.next().expect("iterator is endless");
+                let (x, ys) = layout::parse_s(&Vec::from(&sh)).ok_or_else(|| Violation::new("c06.eval", "layout", "dealt share does not follow the 24-byte layout"))?;
+                for (j, y) in ys.iter().enumerate() {
+                    if *y != shamir_big::eval(&polys_big[j], &x, &p) {
+                        return Err(Violation::new("c06.eval", "ragged_polynomials", format!("get_evaluator over {} polynomials of different lengths: y[{}] at x={} is not the value of polynomial {}", n, j, x, j)));
+                    }
+                }
+            }
+            ctx.stats.probe("get_evaluator_with_polynomials_of_different_lengths");
+        }
         let ts: Vec<u32> = if ctx.thorough { vec![1, 2, 2, 3, 3, 4, 5, 8, 13, 32, 64, 65, 128, 600] } else { vec![1, 2, 2, 3, 3, 4, 5, 8, 13, 32, 64] };
         let mut t = *ctx.ch.pick(&ts) as usize;
         if !ctx.thorough && ctx.ch.chance(1, 80) {
